@@ -700,6 +700,12 @@ struct tiff_type_format_checker
     {
         using view_t = typename Image::view_t;
 
+        // palette images are expanded to rgb16 and nothing else, see reader::apply
+        if( _info._photometric_interpretation == PHOTOMETRIC_PALETTE )
+        {
+            return std::is_same< view_t, rgb16_view_t >::value;
+        }
+
         return is_allowed< view_t >( _info
                                    , std::true_type()
                                    );
